@@ -261,7 +261,7 @@ def h_sync(flavour: int, outcome: int, s: int):
     if outcome:
         if not (r[0] == "exc" and r[1] is boom):
             ok = fail("sync:exception-not-propagated-unchanged", r) and ok
-    elif not (r[0] == "ok" and r[1][0] == 1 and r[1][1] == 2 and r[1][2] is val):
+    elif not (r[0] == "ok" and type(r[1]) is tuple and len(r[1]) == 3 and r[1][0] == 1 and r[1][1] == 2 and r[1][2] is val):
         ok = fail("sync:result-differs", r) and ok
     r2 = None
     try:
